@@ -149,6 +149,7 @@ pub fn run(tier: Tier) -> i32 {
                     p.board[s as usize] = pc(BLACK, KNIGHT);
                 }
                 let fen = p.to_fen();
+                set_current_case(&fen);
                 local_boards += 1;
                 match guarded(|| {
                     let b = Bitboard::from_fen_string(&fen).map_err(|e| format!("{:?}", e))?;
